@@ -93,6 +93,63 @@ def gen_case(rng, algo=None):
     return case, uni
 
 
+# where a second store sits relative to the directory of the first: dvc_data.repo.Repo puts the legacy store at `<cache>` and the
+# current one at `<cache>/files/md5`; the other shapes vary depth and the length of the directory names on the way down
+NEST_RELS = [["files", "md5"], ["files", "md5"], ["files", "md5"], ["files", "sha256"], ["runs"], ["v2"], ["ab", "cd"], ["files", "md5", "v3"]]
+
+
+def gen_nested_case(rng, algo=None):
+    """Two stores, one inside the directory of the other (`nest`). `collect` says which of the two gc is asked to collect - the
+    case's store/used/... describe that one; the other one is a bystander: its objects are not objects of the collected store."""
+    case, uni = gen_case(rng, algo)
+    case["local"] = rng.random() < 0.8
+    case["read_only"] = rng.random() < 0.04
+    objs = {}
+    # the bystander shares objects with the collected store (as after a migration: binary content has one md5 in both flavours):
+    # used ones, unused ones, directory objects, objects the collected store lacks - and holds objects of its own
+    for o in uni.all_oids():
+        if rng.random() < 0.45:
+            objs[o] = uni.data(o).decode()
+    for i in range(rng.randrange(1, 4)):
+        b = b"bystander-%d-%d" % (i, rng.randrange(10**6))
+        objs[_hexdigest(case["hash_name"], b)] = b.decode()
+    case["nest"] = {
+        "rel": list(rng.choice(NEST_RELS)),
+        "collect": rng.choice(["outer", "outer", "outer", "inner"]),
+        "objects": objs,
+        # other things a cache directory holds that are no objects at all
+        "stray": [r for r in (["README"], ["files", "note.txt"], ["tmp", "ab", "cd", "x"], ["runs", "ab", "abcdef", "abcdef"]) if rng.random() < 0.3],
+    }
+    return case, uni
+
+
+def _nest_paths(root, case):
+    """(directory of the collected store, directory of the bystander store, directory holding both)"""
+    outer = os.path.join(root, "odb")
+    nest = case.get("nest")
+    if not nest:
+        return outer, None, outer
+    inner = os.path.join(outer, *nest["rel"])
+    return (outer, inner, outer) if nest["collect"] == "outer" else (inner, outer, outer)
+
+
+def _not_the_stores(top, store_path):
+    """every file below `top` that is not an object of the store at `store_path` (not at <store>/<2 chars>/<name>) nor part of an
+    `<oid>.unpacked` leftover of it: {relative path: bytes}, listed without the library's help"""
+    out = {}
+    for dp, _dns, fns in os.walk(top):
+        for fn in fns:
+            p = os.path.join(dp, fn)
+            rel = os.path.relpath(p, store_path).split(os.sep)
+            if rel[0] != os.pardir and len(rel) == 2 and len(rel[0]) == 2:
+                continue
+            if rel[0] != os.pardir and len(rel) >= 3 and len(rel[0]) == 2 and rel[1].endswith(".unpacked"):
+                continue
+            with open(p, "rb") as f:
+                out[os.path.relpath(p, top)] = f.read().decode("latin-1")
+    return out
+
+
 def rebuild_universe(case):
     uni = stores.Universe.__new__(stores.Universe)
     uni.files = {k: v.encode() for k, v in case["files"].items()}
@@ -123,8 +180,22 @@ def run_impl(ctx, case, uni):
     from dvc_data.hashfile.gc import gc
 
     root = ctx.mkdtemp()
-    odb = stores.make_odb(os.path.join(root, "odb"), local=case["local"], hash_name=case["hash_name"])
+    odb_path, other_path, top = _nest_paths(root, case)
+    odb = stores.make_odb(odb_path, local=case["local"], hash_name=case["hash_name"])
     stores.populate(odb, uni, case["store"])
+    if other_path is not None:
+        os.makedirs(other_path, exist_ok=True)
+        for o, data in case["nest"]["objects"].items():
+            stores.put_raw(other_path, o, data.encode())
+        for rel in case["nest"]["stray"]:
+            p = os.path.join(top, *rel)
+            rel_odb = os.path.relpath(p, odb_path).split(os.sep)
+            if rel_odb[0] != os.pardir and len(rel_odb) == 2 and len(rel_odb[0]) == 2:
+                continue  # would sit where the collected store keeps an object
+            os.makedirs(os.path.dirname(p), exist_ok=True)
+            if not os.path.isdir(p) and not os.path.exists(p):
+                with open(p, "w") as f:
+                    f.write("stray " + "/".join(rel))
     cache = None
     if case["cache"] is not None:
         cache = stores.make_odb(os.path.join(root, "cache"), local=True, hash_name=case["hash_name"])
@@ -143,6 +214,7 @@ def run_impl(ctx, case, uni):
         odb.read_only = True
     before = stores.listing_of(odb.path)
     extras_before = _extras(odb.path)
+    others_before = _not_the_stores(top, odb.path) if other_path is not None else None
     used = [stores.hi(v, n) for n, v in case["used"]]
     # `used` is declared Iterable[HashInfo]: lists, sets, tuples and one-shot iterators / generators are all valid
     form = case.get("used_form", "list")
@@ -151,6 +223,7 @@ def run_impl(ctx, case, uni):
                           expected=(ObjectDBPermissionError, FileNotFoundError))
     after = stores.listing_of(odb.path)
     run_impl.extras = (extras_before, _extras(odb.path))
+    run_impl.others = (others_before, _not_the_stores(top, odb.path) if other_path is not None else None)
     if kind == "ok":
         return {"removed": val, "store": after}, before
     return {"err": val, "store": after}, before
@@ -205,6 +278,22 @@ def check(ctx, case, uni, ans):
     ctx.count("outcome:" + ("ok" if "removed" in impl else impl["err"]))
     # oracle
     ex_before, ex_after = run_impl.extras
+    if case.get("nest"):
+        # gc removes objects *of the store* and nothing else: whatever the request and its outcome (refused, failed, dry, real),
+        # the objects of a store nested in / surrounding the collected one and files that are no objects stay as they were.
+        # (That they are not counted either is the `removed` clause below: it counts the collected store's objects only.)
+        nest = case["nest"]
+        ctx.count("nested:collect=%s rel=%s" % (nest["collect"], "/".join(nest["rel"])))
+        ctx.count("nested:bystander_shares_object=%s" % any(o in before for o in nest["objects"]))
+        if nest["stray"]:
+            ctx.count("nested:stray_files")
+        o_before, o_after = run_impl.others
+        gone = sorted(k for k in o_before if k not in o_after)
+        changed = sorted(k for k in o_before if k in o_after and o_after[k] != o_before[k])
+        new = sorted(k for k in o_after if k not in o_before)
+        ctx.oracle(not gone and not changed and not new, case,
+                   {"why": "gc touched files below the cache directory that are not objects of the collected store (objects of the "
+                           "other store / stray files)", "impl": impl, "removed_paths": gone, "changed_paths": changed, "new_paths": new})
     if case["read_only"]:
         ctx.oracle(impl.get("err") == "ObjectDBPermissionError" and impl["store"] == before and ex_after == ex_before, case,
                    {"why": "read-only store not refused / modified", "impl": impl, "unpacked_before": ex_before, "unpacked_after": ex_after})
@@ -237,8 +326,11 @@ def model_req(case, uni, before=None):
             "unpacked": sorted(case.get("unpacked", [])) if case["local"] else []}
 
 
-def run_cases(ctx, n, algos=False):
-    cases = [gen_case(ctx.rng, ctx.rng.choice(ALGOS) if algos else None) for _ in range(n)]
+def run_cases(ctx, n, algos=False, nested=False):
+    if nested:
+        cases = [gen_nested_case(ctx.rng, ctx.rng.choice([None, None, None] + ALGOS[:2])) for _ in range(n)]
+    else:
+        cases = [gen_case(ctx.rng, ctx.rng.choice(ALGOS) if algos else None) for _ in range(n)]
     answers = ctx.driver.batch([model_req(c, u) for c, u in cases])
     for (c, u), a in zip(cases, answers):
         check(ctx, c, u, a)
@@ -252,17 +344,23 @@ def run(ctx):
         "algo_store_used_dir_expanded) configures the store with another algorithm (hash_name in sha256, sha1, sha512, blake2b, "
         "sha3_256, and the md5 flavours as control): objects named by that digest, listing entries keyed by that name, listings "
         "in canonical / compact / relpath-first JSON or written by the library's own Tree.as_bytes, used sets mixing in "
-        "identifiers of foreign algorithms. non-trivial = >=2 objects in the store and >=1 used "
+        "identifiers of foreign algorithms. A third family (counters nested:*) puts two stores into one cache directory, one inside "
+        "the directory of the other (<cache> and <cache>/files/md5 as dvc_data.repo.Repo lays them out, and other depths / "
+        "directory-name lengths), the bystander store sharing used and unused objects with the collected one and holding its own, "
+        "plus stray non-object files; gc collects the outer or the inner store: count and contents of the collected store as "
+        "before, and every file that is not one of its objects must be left byte-for-byte alone. non-trivial = >=2 objects in the store and >=1 used "
         "identifier of the store's algorithm; distinct = sha256 of the case"
     )
     ctx.assumptions = ["identifiers of directory objects end in '.dir'"]
     run_cases(ctx, ctx.n(300, 4000))
     run_cases(ctx, ctx.n(150, 1500), algos=True)
+    run_cases(ctx, ctx.n(120, 1200), nested=True)
 
 
 def search(ctx):
     run_cases(ctx, 4000)
     run_cases(ctx, 1500, algos=True)
+    run_cases(ctx, 1200, nested=True)
 
 
 def replay(ctx, payload):
